@@ -121,6 +121,25 @@ func vref_percentDecode(b []byte) (out []byte, ok bool) {
 	return out, true
 }
 
+// vref_queryDecode decodes a query component: percent escapes, and '+' for a
+// space (application/x-www-form-urlencoded, what servers apply to queries).
+func vref_queryDecode(b []byte) (out []byte, ok bool) {
+	out, ok = vref_percentDecode(b)
+	for i, c := range b {
+		_ = i
+		if c == '+' {
+			// a raw '+' can only stand for a space: find it in the decoded text
+			for j := range out {
+				if out[j] == '+' {
+					out[j] = ' '
+					break
+				}
+			}
+		}
+	}
+	return out, ok
+}
+
 func vc07_css(n int) {
 	s := vsym_string(n)
 	// NUL cannot be represented in CSS (it decodes to U+FFFD by specification).
@@ -195,11 +214,38 @@ func vc07_urlvalue(n int, quoted bool) {
 	out := w.buf[pre:]
 	h, ok := vref_htmlDecode(out)
 	vassert(ok, "well-formed-character-references")
-	dec, ok := vref_percentDecode(h)
+	dec, ok := vref_queryDecode(h)
 	vassert(ok, "well-formed-percent-escapes")
 	vassert(string(dec) == s, "url-query-value-roundtrip")
 }
 
+// the same for a value that follows a *shown* base URL containing '?' and a
+// literal text that does not start with '?': it is a query value as well
+func vc07_urlvalue_shownbase(n int, quoted bool) {
+	s := vsym_string(n)
+	var w vWriter
+	r := newRenderer(&w)
+	ctx := Context(ast.ContextUnquotedAttr)
+	if quoted {
+		ctx = Context(ast.ContextQuotedAttr)
+	}
+	e := &env{typeof: typeOfFunc}
+	base := []string{"/p?a=1", "?a", "/p?a=1&b=2"}[vsym_choice(3)]
+	vassert(r.Show(e, base, ctx|0x80) == nil, "base-shown")
+	txt := []string{"&v=", "&amp;v=", "v="}[vsym_choice(3)]
+	vassert(r.Text([]byte(txt), true, false) == nil, "text-written")
+	pre := len(w.buf)
+	vassert(r.Show(e, s, ctx|0x80) == nil, "value-shown")
+	out := w.buf[pre:]
+	h, ok := vref_htmlDecode(out)
+	vassert(ok, "well-formed-character-references")
+	dec, ok := vref_queryDecode(h)
+	vassert(ok, "well-formed-percent-escapes")
+	vassert(string(dec) == s, "url-query-value-after-a-shown-base-roundtrip")
+}
+
+func vh_c07_urlvalbq_q() { vc07_urlvalue_shownbase(2, true) }
+func vh_c07_urlvalbu_q() { vc07_urlvalue_shownbase(2, false) }
 func vh_c07_urlvalq_q() { vc07_urlvalue(3, true) }
 func vh_c07_urlvalu_q() { vc07_urlvalue(3, false) }
 func vh_c07_urlvalq_t() { vc07_urlvalue(4, true) }
